@@ -158,6 +158,7 @@ pub fn tamper_values(orig: &BigUint, is_hex: bool, int_max: u64, rng: &mut Rng, 
         out.push(("+1".into(), (orig + &one) % &p));
         out.push(("flip bit 0".into(), (orig ^ &one) % &p));
         out.push(("flip bit 200".into(), (orig ^ (&one << 200)) % &p));
+        out.push(("flip bit 250".into(), (orig ^ (&one << 250)) % &p));
         out.push(("random".into(), vcommon::big(&rng.felt())));
         out.push(("0".into(), BigUint::from(0u8)));
         out.push(("1".into(), one.clone()));
@@ -176,6 +177,21 @@ pub fn tamper_values(orig: &BigUint, is_hex: bool, int_max: u64, rng: &mut Rng, 
     // rotate so that different leaves exercise different replacement kinds first
     if !out.is_empty() {
         let r = rng.below(out.len() as u64) as usize;
+        out.rotate_left(r);
+    }
+    out.truncate(k);
+    out
+}
+
+/// like `tamper_values`, with the rotation chosen by the caller (consecutive leaves of one class walk
+/// through all replacement kinds)
+pub fn tamper_values_rot(orig: &BigUint, is_hex: bool, int_max: u64, rng: &mut Rng, k: usize, rot: usize) -> Vec<(String, BigUint)> {
+    let mut sub = Rng::new(rng.next());
+    let mut out = tamper_values(orig, is_hex, int_max, &mut sub, usize::MAX);
+    // undo the random rotation: order by label for a stable base order
+    out.sort_by(|a, b| a.0.cmp(&b.0));
+    if !out.is_empty() {
+        let r = rot % out.len();
         out.rotate_left(r);
     }
     out.truncate(k);
@@ -210,6 +226,21 @@ pub fn extreme_values(is_hex: bool, int_max: u64) -> Vec<(String, BigUint)> {
     v
 }
 
+/// the original value with extra high limbs (C11, C17, C18): a conversion that keeps only the low
+/// 32 / 64 / 128 bits reads the original back
+pub fn relative_values(orig: &BigUint, is_hex: bool) -> Vec<(String, BigUint)> {
+    let mut v = vec![];
+    if is_hex {
+        for (l, sh, m) in [("orig+2^32", 32u32, 1u8), ("orig+2^64", 64, 1), ("orig+2^128", 128, 1), ("orig+7*2^248", 248, 7)] {
+            let x = orig + (BigUint::from(m) << sh);
+            if x < prime() {
+                v.push((l.to_string(), x));
+            }
+        }
+    }
+    v
+}
+
 // ------------------------------------------------------------------------------------------------
 /// Crash-isolated worker protocol: the parent (check.py) runs N workers; worker `shard` executes
 /// the cases with index % nshards == shard and >= resume, logging BEGIN/END lines so that a
@@ -222,6 +253,9 @@ pub struct Worker {
     out: String,
     since_checkpoint: u64,
     last_violations: usize,
+    /// case classes for which the parent has already attributed two worker deaths: further cases of
+    /// the class are not run (the violation is established; each death costs a full watchdog period)
+    skip_classes: Vec<String>,
 }
 
 impl Worker {
@@ -235,7 +269,12 @@ impl Worker {
             out: args.str("out", "-"),
             since_checkpoint: 0,
             last_violations: 0,
+            skip_classes: args.get("skip_classes").map(|x| x.split("||").filter(|c| !c.is_empty()).map(|c| c.to_string()).collect()).unwrap_or_default(),
         }
+    }
+    pub fn skips(&self, class: &str) -> bool {
+        let c: String = class.chars().filter(|c| *c != '\n' && *c != '\t').take(160).collect();
+        self.skip_classes.iter().any(|x| *x == c)
     }
     pub fn wants(&self, idx: u64) -> bool {
         idx % self.nshards == self.shard && idx >= self.resume
